@@ -320,6 +320,7 @@ type op struct {
 	version int
 	text    string
 	empty   bool // didChange with an empty contentChanges array
+	earlier []string // didChange: full-text changes preceding the final one in the same notification
 	pos     pos
 	target  any // cancel target
 	frame   []byte
@@ -343,6 +344,9 @@ func (o *op) describe() string {
 		d += fmt.Sprintf(" %s v%d %dB", o.uri, o.version, len(o.text))
 		if o.empty {
 			d += " no-content-changes"
+		}
+		if len(o.earlier) > 0 {
+			d += fmt.Sprintf(" batched-after-%d-earlier-changes", len(o.earlier))
 		}
 	case opDidClose, opDidSave:
 		d += " " + o.uri
@@ -391,7 +395,11 @@ func (o *op) build() {
 		msg["params"] = obj{"textDocument": obj{"uri": o.uri, "languageId": "textmapper", "version": o.version, "text": o.text}}
 	case opDidChange:
 		msg["method"] = "textDocument/didChange"
-		changes := []obj{{"text": o.text}}
+		var changes []obj
+		for _, t := range o.earlier {
+			changes = append(changes, obj{"text": t})
+		}
+		changes = append(changes, obj{"text": o.text})
 		if o.empty {
 			changes = []obj{}
 		}
@@ -737,6 +745,13 @@ func genScript(src *sim.Src) *script {
 					d.version = v
 				}
 				continue
+			}
+			if kind == opDidChange && src.Chance(1, 25) {
+				// several full-document changes batched in one notification: each moves the
+				// document to a new state, the last one is the content of this version
+				for k := 1 + src.Draw(2); k > 0; k-- {
+					o.earlier = append(o.earlier, genDoc(src, lastText[uri]))
+				}
 			}
 			o.text = genDoc(src, lastText[uri])
 			lastText[uri] = o.text
